@@ -1112,8 +1112,23 @@ func main() {
 
 	// lock release facts on error paths (C09)
 	o.b.WriteString("\n/-! Error paths that must give back what they acquired (read off the Go AST). -/\n\n")
-	o.boolean("lkCommitUnlocksOnError", ifBodyHas("leveldb/db_transaction.go", "Transaction.Commit", "cerr != nil", "tr.db.compCommitLk.Unlock()"),
-		"`Transaction.Commit` unlocks `compCommitLk` before returning the commit error")
+	o.boolean("lkCommitUnlocksOnError", func() bool {
+		// after compCommitLk.Lock(): every `return cerr` is directly preceded by the Unlock, and the success path unlocks too
+		t := funcText("leveldb/db_transaction.go", "Transaction.Commit")
+		k := strings.Index(t, "tr.db.compCommitLk.Lock()")
+		if k < 0 {
+			return false
+		}
+		rest := t[k:]
+		nret := strings.Count(rest, "return cerr")
+		guarded := 0
+		for _, ind := range []string{"\t", "\t\t", "\t\t\t", "\t\t\t\t", "\t\t\t\t\t", "\t\t\t\t\t\t"} {
+			guarded += strings.Count(rest, "tr.db.compCommitLk.Unlock()\n"+ind+"return cerr")
+		}
+		return nret >= 2 && guarded == nret && strings.Count(rest, "tr.db.compCommitLk.Unlock()") == nret+1 &&
+			ifBodyHas("leveldb/db_transaction.go", "Transaction.Commit", "cerr != nil", "tr.db.compCommitLk.Unlock()")
+	}(),
+		"`Transaction.Commit` unlocks `compCommitLk` before every return of the commit error (also when Close cuts its retries short) and on success")
 	o.boolean("lkOpenTxReleasesOnError", func() bool {
 		// after the token has been taken (the select at the top), every `return nil, err` is preceded by `<-db.writeLockC`
 		t := funcText("leveldb/db_transaction.go", "DB.OpenTransaction")
@@ -1258,6 +1273,28 @@ func main() {
 			textBefore("leveldb/session.go", "session.commit", "if s.manifest == nil {", "s.newManifest(r, nv)") &&
 			textBefore("leveldb/session.go", "session.commit", "s.newManifest(r, nv)", "} else if"),
 		"`session.commit` hands the committing record `r` to `newManifest` only when `s.manifest == nil`; a rotation passes a fresh record `nr`")
+
+	// how `recoverTable` makes its manifest current (C19: Model/RecoverOps.lean, `RCfg.createsEmptyManifestFirst`)
+	o.boolean("recoverTableCommitsOnly", func() bool {
+		t := funcText("leveldb/db.go", "recoverTable")
+		fd := findFunc("leveldb/db.go", "recoverTable")
+		last := ""
+		if n := len(fd.Body.List); n > 0 {
+			last = strings.TrimSpace(stmtText(fd.Body.List[n-1]))
+		}
+		return !strings.Contains(t, "s.create(") && !strings.Contains(t, "newManifest(") &&
+			!strings.Contains(t, "SetMeta(") && strings.Count(t, "s.commit(") == 1 &&
+			last == "return s.commit(rec, false)"
+	}(),
+		"`recoverTable` contains no call of `s.create()`, `newManifest` or `SetMeta`; its only commit is its last statement `return s.commit(rec, false)` (with `s.manifest == nil` that is `newManifest(rec, nv)`: the D33 repair)")
+	o.boolean("newManifestWriteSyncSetMeta",
+		textBefore("leveldb/session_util.go", "session.newManifest", "s.stor.Create(fd)", "rec.encode(w)") &&
+			textBefore("leveldb/session_util.go", "session.newManifest", "rec.encode(w)", "jw.Flush()") &&
+			textBefore("leveldb/session_util.go", "session.newManifest", "jw.Flush()", "writer.Sync()") &&
+			textBefore("leveldb/session_util.go", "session.newManifest", "writer.Sync()", "s.stor.SetMeta(fd)") &&
+			strings.Count(funcText("leveldb/session_util.go", "session.newManifest"), "s.stor.SetMeta(fd)") == 1 &&
+			countStmts("leveldb/session_util.go", "session.newManifest", "err = s.stor.SetMeta(fd)") == 1,
+		"`newManifest`: `Create`, one record (`rec.encode`, `Flush`), `Sync`, and `SetMeta` as the last storage call")
 
 	o.b.WriteString("\nend GoLevel.Gen\n")
 
